@@ -538,3 +538,41 @@ def check_C04(tier, seed):
     cases = [c for c in vmrun.run_scenarios(scns) if 'harness_error' not in c]
     engine.judge_cases(rep, cases, devs, what='numeric chain')
     return rep.finish()
+
+
+def check_C19(tier, seed):
+    import random as _random
+    quick = tier == 'quick'
+    rep = Report('C19', tier, seed)
+    devs = engine.open_deviations()
+    rep.notes['rule'] = ('TLC: rand / shuffle as nondeterministic actions (MC_C19): every candidate result incl. candidates just outside the '
+                         'range is tried; the specification must refuse the outside ones and accepted draws must keep programs that rely '
+                         'on the range free of range errors; code: trace validation - each observed draw of rand(), rand(a, b), rand(list), '
+                         'shuffle(list) must be a value the corresponding action allows (integer-valued bounds of every numeric type, '
+                         'a == b, negative and large bounds, lists of length 0..4 with nested and duplicate elements), many draws per input')
+    res = common.run_tlc('MC_C19.tla', cfg='MC_C19.cfg', workers=8, timeout=600, coverage=not quick)
+    rep.add_tlc(res, 'MC_C19')
+    if res.rc != 0:
+        rep.machinery.append('MC_C19: %s %s' % (res.invariant_violated, res.out[-1000:]))
+    else:
+        ends = {}
+        for r in res.printed():
+            if 'sc' in r:
+                ends.setdefault(r['sc'], set()).add(r['end'])
+        rep.notes['mc_c19_outcomes'] = {str(k): sorted(v) for k, v in sorted(ends.items())}
+        if not all('halt' in v for v in ends.values()) or not any('badoracle' in v for v in ends.values()):
+            rep.machinery.append('MC_C19: vacuous (no accepted or no refused draw)')
+    rep.exhaustive = True
+    _random.seed(seed)
+    scns = families.random_builtin_programs(seed, 1500 if quick else 15000, draws=12 if quick else 40)
+    cases = [c for c in vmrun.run_scenarios(scns) if 'harness_error' not in c]
+    engine.judge_cases(rep, cases, devs, what='draws')
+    # observation only (not demanded by the property): do both end points occur?
+    seen = {}
+    for c in cases:
+        for e in c['events']:
+            if e['e'] == 'o' and e['name'] == 'rand' and e['orc'].get('t') == 'val' and e['orc']['v'].get('t') == 'dec':
+                seen.setdefault(c['calls'][0]['src'][:40], set()).add(''.join(map(str, e['orc']['v']['digs'])) + ('-' if e['orc']['v']['sign'] else ''))
+    rep.notes['distinct_draws_per_program_sample'] = {k: sorted(v)[:8] for k, v in list(seen.items())[:12]}
+    rep.assumptions += ['draws come from the process-global RNG seeded with VERIF_SEED in every worker']
+    return rep.finish()
